@@ -270,6 +270,7 @@ pub fn apply(ctx: &mut Ctx, op: &Op) -> (String, i64) {
                 store.strip_annotation_ids();
                 Ok(0)
             }
+            "QueryAdd" => crate::query::query_add(store, a, style),
             "AnnotateBatch" => {
                 let items = a["items"].as_array().expect("harness: batch items");
                 if a["via"] == "file" {
